@@ -631,6 +631,12 @@ pub struct Status {
     pub zvt_card_type: Option<u8>,
     pub zvt_card_type_id: Option<u8>,
     pub tlv: Option<Vec<Tlv>>,
+    /// PAN (BMP 22, LLVAR, packed digits) and track 2 data (BMP 23, LLVAR).
+    pub pan: Option<Vec<u8>>,
+    pub track2: Option<Vec<u8>>,
+    /// Turnover number (BMP 88, three BCD bytes) - always the last BMP on the wire, reversed or
+    /// not: the library's packet type does not model it and stops reading there.
+    pub turnover: Option<u64>,
     /// Emit BMPs in reverse order (order must not matter).
     pub reversed: bool,
 }
@@ -688,11 +694,20 @@ pub fn status_info(s: &Status) -> Vec<u8> {
     if let Some(v) = s.zvt_card_type_id {
         p = p.byte(0x8c, v);
     }
+    if let Some(v) = &s.pan {
+        p = p.raw(0x22, v);
+    }
+    if let Some(v) = &s.track2 {
+        p = p.raw(0x23, v);
+    }
     if let Some(ts) = &s.tlv {
         p = p.tlv(ts);
     }
     if s.reversed {
         p.bmps.reverse();
+    }
+    if let Some(v) = s.turnover {
+        p = p.raw(0x88, &bcd(v, 3));
     }
     p.encode()
 }
